@@ -439,14 +439,14 @@ fn cmd_run(a: &Args) -> i32 {
             None if gen == "layout" => {
                 // C09: the same call sequence under K heap layouts
                 let k = a.u64("layouts", 8) as usize;
-                let src = this % 4;
+                let src = this % 5;
                 let mut cfg0 = cfg.clone();
                 cfg0.class = Class::Full;
                 cfg0.alloc_mode = alloc::MODE_SCATTER;
                 cfg0.hard_exit = false;
                 let (first, srcdesc) = match src {
                     0 => {
-                        let (ops, desc) = gen::family_ops(this / 4, seed, Class::Full, 10);
+                        let (ops, desc) = gen::family_ops(this / 5, seed, Class::Full, 10);
                         let mut it = ops.into_iter();
                         let mut g = |_: &World| it.next();
                         (run::run_history(&cfg0, &mut g, 100_000), format!("family[{}]", desc))
@@ -458,11 +458,22 @@ fn cmd_run(a: &Args) -> i32 {
                         let mut g = |w: &World| rg.next(w);
                         (run::run_history(&cfg0, &mut g, 10_000), format!("rand FULL hseed={}", hseed))
                     }
+                    4 => {
+                        // forgotten unadopts: records are a superset of the stored handles, still
+                        // "every stored handle is recorded"; histories that hit the known C13 finding
+                        // are skipped below
+                        cfg0.class = Class::Elide;
+                        let hseed = mix(seed ^ 0xE11D, this);
+                        let rc = RandCfg { class: Class::Elide, max_objs: 2 + (mix(hseed, 2) % 4) as usize, len: 15 + (mix(hseed, 1) % 40) as usize, weak_bias: 1, consume_bias: 0 };
+                        let mut rg = RandGen::new(rc, hseed);
+                        let mut g = |w: &World| rg.next(w);
+                        (run::run_history(&cfg0, &mut g, 10_000), format!("rand ELIDE hseed={}", hseed))
+                    }
                     3 => {
                         // one scripted destructor panic: what is destroyed by the interrupted
                         // operation must not depend on the layout either
                         cfg0.class = Class::Panic;
-                        let (ops, desc) = gen::script_ops(this / 4, seed, gen::ScriptMode::Panic);
+                        let (ops, desc) = gen::script_ops(this / 5, seed, gen::ScriptMode::Panic);
                         let mut it = ops.into_iter();
                         let mut g = |_: &World| it.next();
                         (run::run_history(&cfg0, &mut g, 100_000), format!("panic[{}]", desc))
@@ -476,12 +487,23 @@ fn cmd_run(a: &Args) -> i32 {
                         (run::run_history(&cfg0, &mut g, 10_000), format!("enum-full[{}]", desc))
                     }
                 };
+                let mut first = first;
+                let mut skipped = false;
+                if src == 4 && first.violations.iter().any(|v| v.known_sig.is_some()) {
+                    skipped = true;
+                    // the known finding fired in the reference run: nothing to compare
+                    first.violations.clear();
+                    first.inconclusive = None;
+                    first.ops.clear();
+                    first.stats = Stats::default();
+                    AGG.with(|ag| *ag.borrow_mut().extra.entry("elide_histories_skipped_known_finding".into()).or_insert(0) += 1);
+                }
                 let ops0 = first.ops.clone();
                 let mut res = first;
                 let mut layouts: HashSet<u64> = HashSet::new();
                 layouts.insert(res.layout_digest);
                 let mut runs = 1u64;
-                if res.violations.is_empty() && res.inconclusive.is_none() {
+                if !skipped && res.violations.is_empty() && res.inconclusive.is_none() {
                     for j in 1..k {
                         let mut cj = cfg0.clone();
                         cj.teardown = false; // the recorded sequence already contains the teardown
